@@ -3,10 +3,10 @@
 (*   ref     one configuration (document x xref format x plain/incremental): W = lengths of the    *)
 (*           write_all buffers as a healthy sink saw them (the writer's program), n = length of    *)
 (*           the complete output, cross-reference entries checked against the bytes                *)
-(*   run     one save of a fresh clone through the instrumented sink: skip = number of leading    *)
-(*           calls identical to the reference's (accepted in full), tail = the remaining           *)
-(*           inner write(len) -> res calls, result, dlen, dpre (delivered is a prefix of the       *)
-(*           reference: byte comparison done by the harness), later = the later healthy save       *)
+(*   run     one save of a fresh clone through the instrumented sink: skip / suf = number of       *)
+(*           leading / trailing calls identical to the reference's (accepted in full), tail = the  *)
+(*           inner write(len) -> res calls in between, result, dlen, dpre (delivered is a prefix   *)
+(*           of the reference: byte comparison done by the harness), later = the later healthy save *)
 (*   devfull Document::save to a full device                                                      *)
 (*   skip    configuration whose reference could not be produced (outside the domain)              *)
 (* The state carried along the trace is the current configuration (ctx).  For every run the sink's *)
@@ -33,16 +33,26 @@ JudgeRef(r) ==
 
 CtxOf(r) == [id |-> r.cfg, W |-> r.W, P |-> PrefixSums(r.W), n |-> r.n]
 
+\* r.skip leading and r.suf trailing calls of the log are the reference program's own (accepted in full; the
+\* harness compared them), r.tail is what lies between.  The loop model is run over the tail from the
+\* position after the skipped calls and must arrive exactly where the trailing calls take over.
 JudgeRun(c, r) ==
-    IF r.cfg # c.id \/ r.skip > Len(c.W) THEN "tool:context"
+    IF r.cfg # c.id \/ r.skip + r.suf > Len(c.W) THEN "tool:context"
     ELSE
-    LET s == LRun(c.W, r.skip, c.P[r.skip + 1], r.tail)
+    LET nW   == Len(c.W)
+        s    == LRun(c.W, r.skip, c.P[r.skip + 1], r.tail)
+        sufb == c.P[nW + 1] - c.P[nW - r.suf + 1]              \* bytes accepted by the trailing calls
+        pos  == IF s.stopped THEN 0                             \* index of the buffer the next call starts
+                ELSE IF s.rest = 0 THEN NextBuf(c.W, s.i)
+                ELSE IF s.i <= nW /\ s.rest = c.W[s.i] THEN s.i ELSE 0
+        joins == r.suf = 0 \/ pos = nW - r.suf + 1
+        complete == IF r.suf = 0 THEN LComplete(s) ELSE joins
         o == [failed |-> s.failed, nintr |-> s.nintr, result |-> r.result, dlen |-> r.dlen,
               isprefix |-> r.dpre, n |-> c.n]
         v == Verdict(o, r.later)
-    IN  IF s.bad \/ s.dlen # r.dlen \/ r.skip + Len(r.tail) # r.ncalls THEN "tool:log-inconsistent"
+    IN  IF s.bad \/ s.dlen + sufb # r.dlen \/ r.skip + Len(r.tail) + r.suf # r.ncalls THEN "tool:log-inconsistent"
         ELSE IF v # "ok" THEN v
-        ELSE IF s.drift \/ (r.result = "ok" /\ ~LComplete(s)) \/ (r.result = "err" /\ ~s.stopped) \/ r.zcalls > 0
+        ELSE IF s.drift \/ ~joins \/ (r.result = "ok" /\ ~complete) \/ (r.result = "err" /\ ~s.stopped) \/ r.zcalls > 0
              THEN "ok-drift"
         ELSE IF s.failed THEN "ok-failed" ELSE IF s.nintr > 0 THEN "ok-intr" ELSE "ok-chunk"
 
